@@ -218,6 +218,11 @@ func runC17(c *Ctx, w *World, r *Report) {
 				return
 			}
 			vals := appendedValues(call)
+			if len(vals) > 1 {
+				if nm := c17CellName(fv); nm == "keyCnts" || nm == "prefixes" {
+					bad = fmt.Sprintf("%d values are appended to %s at once at %s: every shard is emitted with its own boundary e and its own running minimum", len(vals), nm, w.InstrPos(st))
+				}
+			}
 			if len(vals) != 1 {
 				return
 			}
